@@ -850,7 +850,7 @@ func FuzzSpec(f *testing.F) {
 	}
 	f.Add([]byte("grammar calc;\nNUM = /[0-9]+/\n@left \"*\" \"/\"\nstart = e;\ne = e (\"+\" | \"-\") e | { \"(\" e \")\" } | [ NUM ] | ;\n"))
 	f.Fuzz(func(t *testing.T, data []byte) {
-		if len(data) > 2048 {
+		if len(data) > 2048 || (bytes.IndexByte(data, '{') >= 0 && bigCounts(string(data))) {
 			return
 		}
 		if _, _, err := checkSpec(data); err != nil {
@@ -879,13 +879,35 @@ func wideRange(s string) bool {
 	return false
 }
 
+var countRunRe = regexp.MustCompile(`[0-9]+`)
+
+// bigCounts: a valid repetition count of thousands or billions (a{1000000000}) asks for that many copies of the
+// operand: legitimately expensive and, for the fuzz worker, a way to exhaust the machine's memory. Texts with a run of
+// more than two digits, or with counts whose product exceeds 600, are not submitted by the fuzz target (invalid ranges
+// with huge bounds are submitted under an address-space limit by TestGuardedPatterns).
+func bigCounts(s string) bool {
+	product := 1
+	for _, m := range countRunRe.FindAllString(s, -1) {
+		if len(m) > 2 {
+			return true
+		}
+		if v, err := strconv.Atoi(m); err == nil && v > 1 {
+			product *= v
+		}
+		if product > 600 {
+			return true
+		}
+	}
+	return false
+}
+
 func FuzzPattern(f *testing.F) {
 	for _, s := range hostilePatterns {
 		f.Add(s)
 	}
 	f.Add(`"([\x21\x23-\x5B\x5D-\x7E]|\\[\x21-\x7E])+"`)
 	f.Fuzz(func(t *testing.T, s string) {
-		if len(s) > 48 || tame(s) != s || wideRange(s) {
+		if len(s) > 48 || tame(s) != s || wideRange(s) || bigCounts(s) {
 			return
 		}
 		if _, err := checkPattern(s); err != nil {
